@@ -59,3 +59,24 @@ theorem after_comments (eol : List Char) (vTrail : List Out) (pl pt : List Triv)
   simp only [afterValue, outs, List.filterMap_append, List.filterMap_map, Function.comp_def]
   simp [commentsOut_append, h1, h2, sameLine, commentsOut_spaced, commentsOut_only, List.append_assoc]
 end StyluaModel.PunctLemmas
+
+namespace StyluaModel.SugarLemmas
+open StyluaModel.Trivia StyluaModel.Semi StyluaModel.FieldKey StyluaModel.HangOp StyluaModel.Sugar
+open StyluaModel.SemiLemmas StyluaModel.TriviaLemmas StyluaModel.HangOpLemmas StyluaModel.FieldKeyLemmas
+
+theorem drop_comments (eol : List Char) (ol ot al at' cl ct : List Triv) :
+    commentsOut (dropParens eol ol ot al at' cl ct).1 ++ commentsOut (dropParens eol ol ot al at' cl ct).2 =
+      SemiLemmas.norm eol (commentsIn al) ++ SemiLemmas.norm eol (commentsIn at') ++ SemiLemmas.norm eol (commentsIn ct) := by
+  have h1 : commentsOut (load eol .leading al) = SemiLemmas.norm eol (commentsIn al) := load_comments eol .leading al 0 false
+  have h2 : commentsOut (load eol .trailing (at' ++ ct)) = SemiLemmas.norm eol (commentsIn (at' ++ ct)) :=
+    load_comments eol .trailing (at' ++ ct) 0 false
+  simp only [Sugar.dropParens, commentsOut_append, h1, h2, commentsIn_append]
+  simp [commentsOut, SemiLemmas.norm, List.append_assoc]
+
+theorem add_comments (eol : List Char) (al at' : List Triv) :
+    commentsOut (addParens eol al at').1 ++ commentsOut (addParens eol al at').2 =
+      SemiLemmas.norm eol (commentsIn al) ++ SemiLemmas.norm eol (commentsIn at') := by
+  have h1 : commentsOut (load eol .leading al) = SemiLemmas.norm eol (commentsIn al) := load_comments eol .leading al 0 false
+  have h2 : commentsOut (load eol .trailing at') = SemiLemmas.norm eol (commentsIn at') := load_comments eol .trailing at' 0 false
+  simp only [addParens, sameLine, commentsOut_spaced, commentsOut_only, h1, h2]
+end StyluaModel.SugarLemmas
